@@ -1,15 +1,14 @@
-import RV.Scalar
+import RV.Model.C20Scalar
 /-
   Model of the conversion formulas of rebound/units.py:84-100, in the operation order of
-  the Python source (left-to-right `*` `/`; `x**2` is `x*x`, `x**3` is `x*x*x` — CPython
-  calls libm `pow`, which is correctly rounded for these except in rare cases, so the
-  Float tie allows 2 ulp per power).
+  the Python source (left-to-right `*` `/`; `x**2`, `x**3` are `ScalarP.powi`: CPython calls
+  libm `pow`, and so does the `Float` instance; the exact instance is the ring power).
 
   A unit system is the triple of SI values `(L, T, M)` of its length, time and mass unit.
 -/
 namespace RV.Units
 open RV Scalar
-variable {K : Type} [Scalar K]
+variable {K : Type} [ScalarP K]
 
 /-- `convert_mass(mass, old_m, new_m) = mass*masses_SI[old_m]/masses_SI[new_m]` -/
 def convertMass (m oldM newM : K) : K := m * oldM / newM
@@ -24,12 +23,12 @@ def convertVel (v oldL oldT newL newT : K) : K :=
 
 /-- `convert_acc`: `in_SI = acc*L/T**2; in_SI*T'**2/L'` -/
 def convertAcc (a oldL oldT newL newT : K) : K :=
-  let inSI := a * oldL / (oldT * oldT)
-  inSI * (newT * newT) / newL
+  let inSI := a * oldL / ScalarP.powi oldT 2
+  inSI * ScalarP.powi newT 2 / newL
 
 /-- `convert_G`: `G_SI*M*T**2/L**3` -/
 def convertG (gSI newL newT newM : K) : K :=
-  gSI * newM * (newT * newT) / (newL * newL * newL)
+  gSI * newM * ScalarP.powi newT 2 / ScalarP.powi newL 3
 
 /-- the part of a particle that `units_convert_particle` touches -/
 structure PData (K : Type) where
